@@ -70,7 +70,15 @@ impl<const N: usize> AntiAmplifier<N> {
 
     pub fn on_sent(&self, amount: usize) {
         if self.state.load(Ordering::Acquire) == Self::NORMAL {
-            self.credit.fetch_sub(amount, Ordering::AcqRel);
+            // A burst may report more than the remaining credit (several segments are limited by
+            // the same balance, and a datagram carrying an Initial packet is padded to its full
+            // size), so the counter must saturate at zero: wrapping around would turn an
+            // overdraft into an effectively unlimited credit.
+            let _ = self
+                .credit
+                .fetch_update(Ordering::AcqRel, Ordering::Acquire, |credit| {
+                    Some(credit.saturating_sub(amount))
+                });
         }
     }
 
